@@ -1463,6 +1463,52 @@ def nl_api_checks(ctx):
         ctx.violation("NonlinearForm api raised " + exc_kind(ex), {"err": repr(ex)}, {"what": "nl-raise"})
 
 
+def nl_reuse_checks(ctx):
+    """ONE NonlinearForm object assembled on a sequence of bases of equal kind and size but other geometry
+    (a mesh and its translated / scaled copy, the left and the right boundary): every result equals the one of
+    a fresh form object (which the cases below compare with the hand-linearised forms)"""
+    from skfem import Basis, FacetBasis, MeshTri, MeshQuad, ElementTriP1, ElementQuad1
+    from skfem.autodiff import NonlinearForm
+    import jax.numpy as jnp
+    from skfem.autodiff.helpers import grad, dot
+
+    def cell_form(u, v, w):
+        return (1. + u * u) * dot(grad(u), grad(v)) + jnp.sin(w.x[0] + 2. * w.x[1]) * u * v + w.h * v
+
+    def facet_form(u, v, w):
+        return (w.n[0] + 2. * w.n[1]) * u * u * v + w.x[1] * w.x[0] * v + w.h * u * v
+    for mk, el in ((MeshTri, ElementTriP1), (MeshQuad, ElementQuad1)):
+        m = mk().refined(1).with_defaults()
+        seq_cell = [Basis(m, el()), Basis(m.translated((1.5, 0.25)), el()), Basis(m.scaled((0.5, 2.0)), el()),
+                    Basis(m, el())]
+        seq_facet = [FacetBasis(m, el(), facets=nm) for nm in ("left", "right", "top", "left")]
+        for label, integrand, seq in (("cell", cell_form, seq_cell), ("facet", facet_form, seq_facet)):
+            shared = NonlinearForm(integrand)
+            for step, basis in enumerate(seq):
+                x = np.linspace(0.25, 1.25, basis.N)
+                try:
+                    J, r = shared.assemble(basis, x=x)
+                    Jf, rf = NonlinearForm(integrand).assemble(basis, x=x)
+                except Exception as ex:
+                    ctx.violation("NonlinearForm reused on a second basis raised " + exc_kind(ex),
+                                  {"mesh": mk.__name__, "kind": label, "step": step, "err": repr(ex)},
+                                  {"what": "nl-raise"})
+                    break
+                ctx.case({"nl-reuse": label, "mesh": mk.__name__, "step": step}, nontrivial=step > 0)
+                ctx.count("nl:form-object-reused")
+                dJ = float(np.abs(dense(J) - dense(Jf)).max())
+                dr = float(np.abs(r - rf).max())
+                if dJ > 1e-13 or dr > 1e-13:
+                    ctx.violation("a NonlinearForm object reused on another basis of the same kind and size returns "
+                                  "another Jacobian / residual than a fresh form object",
+                                  {"mesh": mk.__name__ + "().refined(1).with_defaults()", "kind": label, "step": step,
+                                   "sequence": ("mesh, translated((1.5,.25)), scaled((.5,2)), mesh" if label == "cell"
+                                                else "left, right, top, left"),
+                                   "jacobian_diff": dJ, "residual_diff": dr},
+                                  {"what": "nl-form-reuse", "kind": label})
+                    break
+
+
 def nl_operator_checks(ctx):
     """arithmetic of a bare JaxDiscreteField (the objects u, v, w['name'] an integrand receives): every
     operator x operand kinds (field, Python number, NumPy scalar, NumPy array, jax array; both sides)
@@ -1603,6 +1649,10 @@ def run(ctx):
     log(f"[C20] gen-selfcheck done at {ctx.elapsed():.1f}s")
     # ---- 3. NonlinearForm
     nl_api_checks(ctx)
+    try:
+        nl_reuse_checks(ctx)
+    except Exception as ex:
+        ctx.violation("NonlinearForm reuse check raised " + exc_kind(ex), {"err": repr(ex)}, {"what": "nl-raise"})
     try:
         nl_operator_checks(ctx)
     except Exception as ex:
